@@ -71,6 +71,28 @@ func VH_stack_History() {
 	vAssert(p, "Peek(-1) panics")
 }
 
+// VH_stack_Long: a long push run followed by a long pop run (growth and any
+// shrink thresholds of the backing array), every popped value and Len checked.
+func VH_stack_Long() {
+	n, keep := vCase("n"), vCase("keep")
+	s := New[int]()
+	ref := make([]int, 0, n)
+	for i := 0; i < n; i++ {
+		x := vOrd("x")
+		s.Push(x)
+		ref = append(ref, x)
+	}
+	vAssert(s.Len() == n && s.Top() == ref[n-1], "after the push run")
+	for len(ref) > keep {
+		got, ok := s.Pop()
+		vAssert(ok && got == ref[len(ref)-1], "Pop returns the top during a long drain")
+		ref = ref[:len(ref)-1]
+		vAssert(s.Len() == len(ref), "Len during a long drain")
+	}
+	vCover("stack-long")
+	vCheckStack(s, ref, "after a long drain")
+}
+
 func VT_stack_script() {
 	s := New[int]()
 	for i := 1; i <= 5; i++ {
